@@ -171,6 +171,22 @@ def main():
             print(f'  signature: {sig}')
             print(f'  {rec["detail"][:400]}')
             return 1
+        if not args.replay and ('FlakyStrategyDefinition' in tb or 'FlakyFailure' in tb or 'hypothesis.errors.Flaky' in tb):
+            # Hypothesis replays every case it generates; the generators and judges here are pure
+            # functions of the drawn values and of what the library returns.  A replay that goes
+            # another way means the LIBRARY answered the same calls differently (state kept between
+            # calls: a module-level cache, a shared parse tree, a mutable default argument) - which no
+            # property allows: behaviour is quantified over inputs.  On the unchanged tree this never
+            # happens (the checks would be flaky); it is reported as a violation, not hidden.
+            sig = f'{prop}|library-behaviour-not-reproducible|same calls, different answers within one process'
+            rec = {'case': {'traceback': tb[-6000:]}, 'detail': 'the same generated inputs made mosromgr behave differently '
+                   'when replayed in the same process (state leaking between calls): ' + str(e)[:300],
+                   'expected': 'identical behaviour', 'observed': 'different behaviour', 'count': 1}
+            path = findings.write_replay(prop, sig, rec, seed, False)
+            print(f'VIOLATION property={prop} replay={path}')
+            print(f'  signature: {sig}')
+            print(f'  {rec["detail"][:400]}')
+            return 1
         print(f'HARNESS-ERROR property={prop} internal error (not a verdict)')
         return 2
 
